@@ -173,6 +173,9 @@ type c14Case struct {
 	cfgName string
 	src     []byte
 	ref     []byte
+	// node (optional): Render is called for this node of the parsed tree - a subtree, as a caller does that renders one
+	// section of a document - instead of Convert / Render of the root; ref is then the fault-free output for that node
+	node ast.Node
 }
 
 func c14Offsets(c *core.Ctx, n int) ([]int, bool) {
@@ -249,7 +252,9 @@ func c14RunAs(c *core.Ctx, k c14Case, variant string, off int, label string) {
 	var err error
 	c.Begin(k.cfgName, k.src)
 	pv, st := core.Try(func() {
-		if useRender {
+		if k.node != nil {
+			err = k.md.Renderer().Render(dst, k.src, k.node)
+		} else if useRender {
 			doc := k.md.Parser().Parse(text.NewReader(k.src))
 			err = k.md.Renderer().Render(dst, k.src, doc)
 		} else {
@@ -449,8 +454,59 @@ func c14Histories(c *core.Ctx) {
 	}
 }
 
+// c14Subtrees: Render called for a node inside a tree (the first block, a list, a block quote, a nested paragraph), into every
+// kind of destination, with every fault offset: the same oracle as for whole documents.
+func c14Subtrees(c *core.Ctx) {
+	r := c.Rng
+	docs := []string{
+		"# title\n\n" + strings.Repeat("a paragraph with *emphasis* and `code` and a [link](/u) in it\n", 30) + "\n> quote\n> - item one\n> - item two\n\n1. first\n2. second " + strings.Repeat("long ", 900) + "\n\nlast\n",
+		"- a\n- b\n\n  " + strings.Repeat("word ", 1200) + "\n\n```\n" + strings.Repeat("code line\n", 500) + "```\n",
+		"short\n\n> q\n",
+	}
+	specs := []cfg.Spec{{Ext: cfg.ExtCore}, {Ext: cfg.ExtAll, Unsafe: true, XHTML: true}}
+	variants := []string{"render-plain", "bufio16", "bufio4096", "bufio65536", "custom-bufwriter", "buffer-like", "string-writer", "uncomparable-error"}
+	k := 0
+	for _, sp := range specs {
+		md := sp.Build()
+		for _, d := range docs {
+			src := []byte(d)
+			doc := md.Parser().Parse(text.NewReader(src))
+			var nodes []ast.Node
+			_ = ast.Walk(doc, func(n ast.Node, entering bool) (ast.WalkStatus, error) {
+				if entering && n.Parent() != nil && n.Type() == ast.TypeBlock {
+					nodes = append(nodes, n)
+				}
+				return ast.WalkContinue, nil
+			})
+			for _, n := range nodes {
+				k++
+				if !c.Mine(k) {
+					continue
+				}
+				var ref bytes.Buffer
+				if err := md.Renderer().Render(&ref, src, n); err != nil {
+					continue
+				}
+				kc := c14Case{md: md, cfgName: sp.Name(), src: src, ref: append([]byte(nil), ref.Bytes()...), node: n}
+				offs, _ := c14Offsets(c, len(kc.ref))
+				if len(offs) > 200 {
+					r.Shuffle(len(offs), func(i, j int) { offs[i], offs[j] = offs[j], offs[i] })
+					offs = append(offs[:200], len(kc.ref), len(kc.ref)+7)
+				}
+				for _, v := range variants {
+					for _, off := range offs {
+						c14RunAs(c, kc, v, off, "subtree("+n.Kind().String()+"):"+v)
+					}
+				}
+				c.Count("subtrees_rendered_with_fault_enumeration", 1)
+			}
+		}
+	}
+}
+
 func runC14(c *core.Ctx) {
 	defer c14Histories(c)
+	defer c14Subtrees(c)
 	corpus := loadCorpus(c)
 	r := c.Rng
 	specs := []cfg.Spec{{Ext: cfg.ExtCore}, {Ext: cfg.ExtGFM, XHTML: true}, {Ext: cfg.ExtAll, AutoHeadingID: true, Attribute: true}, {Ext: cfg.ExtFootnote, Unsafe: true},
